@@ -40,13 +40,6 @@ Definition run (fields : list str) : list str :=
       else if str_eqb tag (L "unesc") then
         match args with [s] => [html_unescape s] | _ => BAD end
       else if str_eqb tag (L "index") then
-        (* nderr derr* errors* *)
-        match args with
-        | n :: r => match take_strs (N.to_nat (nd n)) r with
-                    | Some (derr, r') => flat_map row_out (index_rows derr (take_errs (length r') r'))
-                    | None => BAD
-                    end
-        | [] => BAD
-        end
+        flat_map row_out (index_rows (take_errs (length args) args))
       else BAD
   end.
